@@ -420,10 +420,14 @@ seq_t dtw_warping_paths{{ suffix }}{{ suffix2 }}(seq_t *wps,
 //    dtw_print_wps(wps, l1, l2, settings);
 
     seq_t rvalue = 0;
-    idx_t final_wpsi = ri_widthp + wpsi - 1;
+    // Cells are addressed through the compact layout: rows can be shifted, the last column can
+    // lie outside the band of a row, and the index left behind by the loops above is not
+    // reliable when the last row stopped early.
+    idx_t loc_cb = 0, loc_ce = 0, loc_base = 0;
     // Deal with Psi-relaxation
     if (return_dtw && settings->psi_1e == 0 && settings->psi_2e == 0) {
-        rvalue = wps[final_wpsi];
+        loc_base = dtw_wps_loc_columns(&p, l1, &loc_cb, &loc_ce, l1, l2);
+        rvalue = wps[loc_base + l2 - loc_cb];
     } else if (return_dtw) {
         seq_t mir_value = {{infinity}};
         idx_t mir_rel = 0;
@@ -431,28 +435,28 @@ seq_t dtw_warping_paths{{ suffix }}{{ suffix2 }}(seq_t *wps,
         idx_t mic = 0;
         // Find smallest value in last column
         if (settings->psi_1e != 0) {
-            wpsi = final_wpsi;
-            for (ri=l1-1; ri>l1-settings->psi_1e-2; ri--) {
-                if (wps[wpsi] < mir_value) {
-                    mir_value = wps[wpsi];
-                    mir_rel = ri + 1;
-                } else {
-                    // pass
+            for (ri=l1-1; ri>l1-settings->psi_1e-2 && ri>=0; ri--) {
+                loc_base = dtw_wps_loc_columns(&p, ri+1, &loc_cb, &loc_ce, l1, l2);
+                if (loc_cb <= l2 && l2 < loc_ce) {
+                    wpsi = loc_base + l2 - loc_cb;
+                    if (wps[wpsi] < mir_value) {
+                        mir_value = wps[wpsi];
+                        mir_rel = ri + 1;
+                    }
                 }
-                wpsi -= p.width;
             }
         }
         // Find smallest value in last row
         if (settings->psi_2e != 0) {
-            wpsi = final_wpsi;
-            for (ci=l2-1; ci>l2-settings->psi_2e-2; ci--) {
-                if (wps[wpsi] < mic_value) {
-                    mic_value = wps[wpsi];
-                    mic = ci + 1;
-                } else {
-                    // pass
+            loc_base = dtw_wps_loc_columns(&p, l1, &loc_cb, &loc_ce, l1, l2);
+            for (ci=l2-1; ci>l2-settings->psi_2e-2 && ci>=0; ci--) {
+                if (loc_cb <= ci+1 && ci+1 < loc_ce) {
+                    wpsi = loc_base + ci + 1 - loc_cb;
+                    if (wps[wpsi] < mic_value) {
+                        mic_value = wps[wpsi];
+                        mic = ci + 1;
+                    }
                 }
-                wpsi -= 1;
             }
         }
         // Set values with higher indices than the smallest value to -1
@@ -460,21 +464,22 @@ seq_t dtw_warping_paths{{ suffix }}{{ suffix2 }}(seq_t *wps,
         if (mir_value < mic_value) {
             // last column has smallest value
             if (psi_neg) {
-                for (idx_t ri=mir_rel + 1; ri<l1 + 1; ri++) {
-                    wpsi = ri*p.width + (p.width - 1);
-                    wps[wpsi] = -1;
+                for (idx_t rj=mir_rel + 1; rj<l1 + 1; rj++) {
+                    loc_base = dtw_wps_loc_columns(&p, rj, &loc_cb, &loc_ce, l1, l2);
+                    if (loc_cb <= l2 && l2 < loc_ce) {
+                        wps[loc_base + l2 - loc_cb] = -1;
+                    }
                 }
             }
             rvalue = mir_value;
         } else {
             // last row has smallest value
             if (psi_neg) {
-                for (ci=p.width - (l2 - mic); ci<p.width; ci++) {
-                    wpsi = l1*p.width + ci;
-                    if (p.window != 0 && p.window != l2) {
-                        wpsi--;
+                loc_base = dtw_wps_loc_columns(&p, l1, &loc_cb, &loc_ce, l1, l2);
+                for (idx_t cj=mic + 1; cj<l2 + 1; cj++) {
+                    if (loc_cb <= cj && cj < loc_ce) {
+                        wps[loc_base + cj - loc_cb] = -1;
                     }
-                    wps[wpsi] = -1;
                 }
             }
             rvalue =  mic_value;
